@@ -47,6 +47,8 @@ pub mod state_machine;
 pub mod term_helpers;
 pub mod transport;
 pub mod types;
+#[cfg(edp_rs_verif)]
+pub mod verif_hooks;
 
 pub use connection::{Connection, ConnectionConfig};
 pub use errors::{Error, Result};
